@@ -13,10 +13,23 @@ namespace Sm.DriverSbt
 
 open Sm.Proto Sm.SBT
 
-/-- the tree, the scaled value of its sketches, and the image of the last `save` to another
-location (`saveas`).  `SBT.save` leaves the in-memory tree as it was: node contents, the storage a
-node was loaded from and its dirty flag are untouched -/
-abbrev St := Option (Tree × Nat × Option Image)
+/-- driver state.  `saved`: image of the last `save` to another location (`saveas`; `SBT.save` leaves the
+in-memory tree as it was).  `img`: the index the tree in use was loaded from (version 3-6), for the
+file-damage ops.  `stash`: a second tree put aside for `combine`.  `mf`: number of rows of the
+manifest the tree carries (loaded from a version 3-6 index), which `tree.signatures()` reads instead
+of the leaves.  `skip`: after a file of the index was damaged the model predicts nothing -/
+structure S where
+  t : Tree
+  sT : Nat
+  saved : Option Image := none
+  img : Option Image := none
+  stash : Option Tree := none
+  mf : Option Nat := none
+  skip : Bool := false
+  needNew : Bool := false
+  combined : Bool := false     -- the tree went through `combine` (it can have free positions under internal nodes)
+
+abbrev St := Option S
 
 def init : St := none
 
@@ -25,6 +38,17 @@ def pre : Bool := Sm.Gen.sbtAddRebuildsMissing
 def keep : Bool := Sm.Gen.sbtUnloadKeepsDirty
 def legacyFills : Bool := Sm.Gen.sbtLegacyFillsMin
 def selectEmptyOk : Bool := Sm.Gen.sbtSelectEmptyOk
+def insertDropsManifest : Bool := Sm.Gen.sbtInsertDropsManifest
+def addNodeClimbs : Bool := Sm.Gen.sbtAddNodeClimbs
+def missingOnlyAncestors : Bool := Sm.Gen.sbtMissingOnlyAncestors
+
+/-- the loaders' `_missing_nodes` in the variant that records only absent ancestors of what was loaded
+(the same set as `load` computes on every tree without free positions, i.e. every insertion-built one) -/
+def trimMissing (t : Tree) : Tree :=
+  if missingOnlyAncestors then
+    { t with missing := t.missing.filter (fun a =>
+        (t.nodes.keys ++ t.leaves.keys).any (fun p => (ancestors t.d p).contains a)) }
+  else t
 
 /-- `MinHash(0, 21, scaled=s)` keeps the hashes up to `_get_max_hash_for_scaled(s)` -/
 def maxHashOf (s : Nat) : Nat := Sm.mhP s
@@ -61,8 +85,13 @@ def entry (t : Tree) (p : Nat) : String :=
     | none => ""
   s!"{p}:{kinds}{lf}{nf}"
 
-def dump (t : Tree) : String :=
+def dumpTree (t : Tree) : String :=
   "ok " ++ " ".intercalate (t.positions.map (entry t))
+
+/-- `sv` = how many signatures `tree.signatures()` yields: the manifest's rows when the tree carries
+one, else the leaves -/
+def dump (t : Tree) (mf : Option Nat) : String :=
+  "ok " ++ " ".intercalate (t.positions.map (entry t) ++ [s!"sv={match mf with | some n => n | none => t.leaves.length}"])
 
 def probe (t : Tree) (hs : List Nat) : String :=
   let ps := t.positions.filter (fun p => t.nodes.has p)
@@ -71,111 +100,143 @@ def probe (t : Tree) (hs : List Nat) : String :=
     | some n => s!"{p}={(n.data t.sizes).matchCount hs}"
     | none => ""))
 
-def fin (st : St) (sT : Nat) (sv : Option Image) (r : Except Err Tree) : St × String :=
+def fin (s : S) (r : Except Err Tree) : St × String :=
   match r with
-  | .ok t => (some (t, sT, sv), "ok")
-  | .error e => (st, "err " ++ e.name)
+  | .ok t => (some { s with t := t }, "ok")
+  | .error e => (some s, "err " ++ e.name)
 
-def doSearch (st : St) (t : Tree) (sT : Nat) (sv : Option Image) (q : Query) : St × String :=
-  if t.leaves.isEmpty then (st, "err RuntimeError") else
-  match search fixed keep t q with
-  | (t', .ok ls) => (some (t', sT, sv), "ok " ++ joinNats ((ls.map (·.id)).mergeSort (· ≤ ·)))
-  | (t', .error e) => (some (t', sT, sv), "err " ++ e.name)
+def doSearch (s : S) (q : Query) : St × String :=
+  if s.t.leaves.isEmpty then (some s, "err RuntimeError") else
+  match search fixed keep s.t q with
+  | (t', .ok ls) => (some { s with t := t' }, "ok " ++ joinNats ((ls.map (·.id)).mergeSort (· ≤ ·)))
+  | (t', .error e) => (some { s with t := t' }, "err " ++ e.name)
+
+def sortedKeys {α : Type} (m : PMap α) : List Nat := (sortDesc m.keys).reverse
 
 def step (st : St) (line : String) : St × String :=
   let bad := (st, "bad-op")
-  match words line with
-  | "#" :: _ => (init, "#")
-  | "new" :: d :: bf :: nt :: rest =>
+  match words line, st with
+  | "#" :: _, _ => (init, "#")
+  | "new" :: d :: bf :: nt :: rest, _ =>
     match nats? [d, bf, nt], nats? rest with
     | some [d, bf, nt], some rest =>
       let sT := match rest with | [s] => s | _ => 1
       if bf = 0 ∨ sT = 0 ∨ rest.length > 1 then bad else
       let sizes := NG.tableSizes bf nt
-      (some (Tree.new d sizes, sT, none), s!"ok sizes={joinNats sizes}")
+      let stash := match st with | some s => s.stash | none => none
+      (some { t := Tree.new d sizes, sT := sT, stash := stash }, s!"ok sizes={joinNats sizes}")
     | _, _ => bad
-  | "ins" :: id :: hs =>
-    match st, nat? id, nats? hs with
-    | some (t, sT, sv), some id, some hs =>
-      match addNode fixed pre t ⟨id, keepBelow sT (sortDedup hs)⟩ with
-      | .ok t' =>
-        let pos := match t'.leaves.find? (fun kv => kv.2.id = id) with
-          | some kv => toString kv.1
-          | none => "-"
-        (some (t', sT, sv), s!"ok n={t'.leaves.length} pos={pos}")
-      | .error e => (st, "err " ++ e.name)
-    | _, _, _ => bad
-  | ["dump"] =>
-    match st with
-    | some (t, _, _) => (st, dump t)
-    | none => bad
-  | "probe" :: hs =>
-    match st, nats? hs with
-    | some (t, _, _), some hs => (st, probe t (sortDedup hs))
-    | _, _ => bad
-  | ["saveload", sp, seed, ver, cache] =>
-    match st, nats? [sp, seed, ver, cache] with
-    | some (t, sT, sv), some [sp, seed, ver, cache] =>
-      if ver < 1 ∨ ver > 6 then bad else
-      let im := save t (fun p => drawAt seed p ≤ sp)
-      let cm := if cache = 0 then none else some cache
-      if ver ≤ 2 then
-        if im.leaves.isEmpty then (st, "err ValueError")
-        else if ver = 1 ∧ im.d ≠ 2 then bad
-        else fin st sT sv (loadLegacy fixed legacyFills im cm)
-      else fin st sT sv (load fixed im ver cm)
-    | _, _ => bad
-  | ["saveas", sp, seed, _fmt] =>
-    -- save to another location; the in-memory tree stays in use, unchanged
-    match st, nats? [sp, seed] with
-    | some (t, sT, _), some [sp, seed] =>
-      let (t', im) := saveElsewhere t (fun p => drawAt seed p ≤ sp)
-      (some (t', sT, some im), "ok")
-    | _, _ => bad
-  | ["checksaved", cache] =>
-    -- load the copy written by the last `saveas` (index version 6) and walk it; the tree in use is not replaced
-    match st, nat? cache with
-    | some (_, _, some im), some cache =>
-      match load fixed im 6 (if cache = 0 then none else some cache) with
-      | .ok t2 => (st, dump t2)
-      | .error e => (st, "err " ++ e.name)
-    | _, _ => bad
-  | "search" :: c :: thr :: hs =>
-    match st, nat? c, nat? thr, nats? hs with
-    | some (t, sT, sv), some c, some thr, some hs =>
-      if c > 1 then bad else doSearch st t sT sv (mkQuery c thr sT sT (sortDedup hs))
-    | _, _, _, _ => bad
-  | "searchs" :: c :: thr :: sQ :: hs =>
-    match st, nats? [c, thr, sQ], nats? hs with
-    | some (t, sT, sv), some [c, thr, sQ], some hs =>
-      if c > 2 ∨ sQ = 0 then bad else doSearch st t sT sv (mkQuery c thr sT sQ (sortDedup hs))
-    | _, _, _ => bad
-  | ["select", ks, sc, cont] =>
-    match st, nats? [ks, sc], bool? cont with
-    | some (t, sT, sv), some [ks, sc], some cont =>
-      if t.leaves.isEmpty then (st, if selectEmptyOk then "ok" else "err StopIteration")
-      else if ks ≠ 21 then (st, "err ValueError")
-      else if sc > sT ∧ !cont then (st, "err ValueError")
-      else (st, "ok")
-    | _, _, _ => bad
-  | ["rebuild", p] =>
-    match st, nat? p with
-    | some (t, sT, sv), some p => fin st sT sv (rebuild fixed t.rebuildFuel t p)
-    | _, _ => bad
-  | ["rebuildm", k] =>
-    match st, nat? k with
-    | some (t, sT, sv), some k =>
-      let ms := (sortDesc t.missing).reverse
-      if ms.isEmpty then (st, "ok") else fin st sT sv (rebuild fixed t.rebuildFuel t (ms.getD (k % ms.length) 0))
-    | _, _ => bad
-  | ["fillint"] =>
-    match st with
-    | some (t, sT, sv) => fin st sT sv (fillInternal fixed t)
-    | none => bad
-  | ["fillmin"] =>
-    match st with
-    | some (t, sT, sv) => fin st sT sv (fillMinNBelow fixed t)
-    | none => bad
-  | _ => bad
+  | _, none => bad
+  | ws, some s =>
+    if s.needNew then bad else
+    if s.skip then (st, "skip") else
+    match ws with
+    | "ins" :: id :: hs =>
+      match nat? id, nats? hs with
+      | some id, some hs =>
+        -- the variant of `add_node` that climbs to an existing parent is not modelled; it differs from the modelled one
+        -- only on trees with free positions under internal nodes, i.e. after `combine`
+        if addNodeClimbs ∧ s.combined then (some { s with skip := true }, "skip") else
+        match addNode fixed pre s.t ⟨id, keepBelow s.sT (sortDedup hs)⟩ with
+        | .ok t' =>
+          let pos := match t'.leaves.find? (fun kv => kv.2.id = id) with
+            | some kv => toString kv.1
+            | none => "-"
+          (some { s with t := t', mf := if insertDropsManifest then none else s.mf }, s!"ok n={t'.leaves.length} pos={pos}")
+        | .error e => (st, "err " ++ e.name)
+      | _, _ => bad
+    | ["dump"] => (st, dump s.t s.mf)
+    | ["stash"] =>
+      -- the tree in use is put aside (for `combine`); a `new` must follow
+      (some { s with stash := some s.t, needNew := true, mf := none, img := none, saved := none }, "ok")
+    | ["combine"] =>
+      match s.stash with
+      | some other =>
+        if s.t.leaves.isEmpty ∨ other.leaves.isEmpty ∨ other.d ≠ s.t.d then bad else
+        match combine s.t other with
+        | .ok t' =>
+          -- the node cache is keyed by the positions BEFORE the combination: a source that keeps it answers later
+          -- searches from stale node objects, which this model (keys only) cannot follow
+          let stale := !Sm.Gen.sbtCombineResetsCache && !s.t.cache.isEmpty
+          (some { s with t := { t' with cache := [] }, stash := none, img := none, combined := true, skip := stale },
+           s!"ok n={t'.leaves.length}")
+        | .error e => (st, "err " ++ e.name)
+      | none => bad
+    | "probe" :: hs =>
+      match nats? hs with
+      | some hs => (st, probe s.t (sortDedup hs))
+      | none => bad
+    | ["saveload", sp, seed, ver, cache] =>
+      match nats? [sp, seed, ver, cache] with
+      | some [sp, seed, ver, cache] =>
+        if ver < 1 ∨ ver > 6 then bad else
+        let im := save s.t (fun p => drawAt seed p ≤ sp)
+        let cm := if cache = 0 then none else some cache
+        if ver ≤ 2 then
+          if im.leaves.isEmpty then (st, "err ValueError")
+          else if ver = 1 ∧ im.d ≠ 2 then bad
+          else fin { s with img := none, mf := none } (loadLegacy fixed legacyFills im cm)
+        else fin { s with img := some im, mf := some im.leaves.length } ((load fixed im ver cm).map trimMissing)
+      | _ => bad
+    | ["saveas", sp, seed, _fmt] =>
+      -- save to another location; the in-memory tree stays in use, unchanged
+      match nats? [sp, seed] with
+      | some [sp, seed] =>
+        let (t', im) := saveElsewhere s.t (fun p => drawAt seed p ≤ sp)
+        (some { s with t := t', saved := some im }, "ok")
+      | _ => bad
+    | ["checksaved", cache] =>
+      -- load the copy written by the last `saveas` (index version 6) and walk it; the tree in use is not replaced
+      match s.saved, nat? cache with
+      | some im, some cache =>
+        match (load fixed im 6 (if cache = 0 then none else some cache)).map trimMissing with
+        | .ok t2 => (st, dump t2 (some t2.leaves.length))
+        | .error e => (st, "err " ++ e.name)
+      | _, _ => bad
+    | ["damage", kind, k] =>
+      -- a file of the index the tree was loaded from is damaged and the index loaded again: from here on the
+      -- model predicts nothing (`skip`); the oracle demands an error or the right answer, never a wrong one
+      match s.img, nat? k with
+      | some im, some k =>
+        let I := sortedKeys im.nodes
+        let L := sortedKeys im.leaves
+        if I.isEmpty ∨ L.isEmpty then bad
+        else if kind = "swap" ∧ I.length < 2 then bad
+        else if kind ∈ ["del", "trunc", "empty", "swapleaf", "swap", "delleaf"] then
+          (some { s with skip := true }, "skip")       -- loading the damaged index may already raise
+        else bad
+      | _, _ => bad
+    | "search" :: c :: thr :: hs =>
+      match nat? c, nat? thr, nats? hs with
+      | some c, some thr, some hs =>
+        if c > 1 then bad else doSearch s (mkQuery c thr s.sT s.sT (sortDedup hs))
+      | _, _, _ => bad
+    | "searchs" :: c :: thr :: sQ :: hs =>
+      match nats? [c, thr, sQ], nats? hs with
+      | some [c, thr, sQ], some hs =>
+        if c > 2 ∨ sQ = 0 then bad else doSearch s (mkQuery c thr s.sT sQ (sortDedup hs))
+      | _, _ => bad
+    | ["select", ks, sc, cont] =>
+      match nats? [ks, sc], bool? cont with
+      | some [ks, sc], some cont =>
+        let nsig := match s.mf with | some n => n | none => s.t.leaves.length
+        if nsig = 0 then (st, if selectEmptyOk then "ok" else "err StopIteration")
+        else if ks ≠ 21 then (st, "err ValueError")
+        else if sc > s.sT ∧ !cont then (st, "err ValueError")
+        else (st, "ok")
+      | _, _ => bad
+    | ["rebuild", p] =>
+      match nat? p with
+      | some p => fin s (rebuild fixed s.t.rebuildFuel s.t p)
+      | none => bad
+    | ["rebuildm", k] =>
+      match nat? k with
+      | some k =>
+        let ms := (sortDesc s.t.missing).reverse
+        if ms.isEmpty then (st, "ok") else fin s (rebuild fixed s.t.rebuildFuel s.t (ms.getD (k % ms.length) 0))
+      | none => bad
+    | ["fillint"] => fin s (fillInternal fixed s.t)
+    | ["fillmin"] => fin s (fillMinNBelow fixed s.t)
+    | _ => bad
 
 end Sm.DriverSbt
